@@ -179,7 +179,10 @@ bool surface_available(int surf, int param) {
     return param_api(param).present();
   return nist_api(param).present();
 }
+static const uint8_t NONNULL_EMPTY = 0;
 int s_sign(int surf, const model::Key& k, const uint8_t* m, size_t ml, uint8_t* sig, size_t* siglen) {
+  if (!m)
+    m = &NONNULL_EMPTY; // an empty message is passed as a valid pointer with length 0
   if (surf == 1) {
     bytes s = param_sk_struct(k);
     return param_api(k.param).sign(s.data(), m, ml, sig, siglen);
@@ -188,6 +191,10 @@ int s_sign(int surf, const model::Key& k, const uint8_t* m, size_t ml, uint8_t* 
   return picnic_sign(s.data(), m, ml, sig, siglen);
 }
 int s_verify(int surf, const model::Key& k, const uint8_t* m, size_t ml, const uint8_t* sig, size_t siglen) {
+  if (!m)
+    m = &NONNULL_EMPTY;
+  if (!sig)
+    sig = &NONNULL_EMPTY;
   if (surf == 1) {
     bytes s = param_pk_struct(k);
     return param_api(k.param).verify(s.data(), m, ml, sig, siglen);
@@ -276,14 +283,18 @@ static void hook_kkw(unsigned int, unsigned int u, unsigned int, uint16_t* C, ui
     P[i] = g_forced->P[i];
   }
 }
-ForcedChallenge::ForcedChallenge(const model::Challenge* ch) {
+ForcedChallenge::ForcedChallenge(const model::Challenge* ch) : active(ch != nullptr) {
+  if (!active)
+    return; // the hook pointers are never touched by ordinary operations
   g_forced = ch;
   if (&picnic_verif_challenge_zkbpp)
-    picnic_verif_challenge_zkbpp = ch ? hook_zkbpp : nullptr;
+    picnic_verif_challenge_zkbpp = hook_zkbpp;
   if (&picnic_verif_challenge_kkw)
-    picnic_verif_challenge_kkw = ch ? hook_kkw : nullptr;
+    picnic_verif_challenge_kkw = hook_kkw;
 }
 ForcedChallenge::~ForcedChallenge() {
+  if (!active)
+    return;
   g_forced = nullptr;
   if (&picnic_verif_challenge_zkbpp)
     picnic_verif_challenge_zkbpp = nullptr;
